@@ -444,7 +444,10 @@ def minimise(prop, program, violation, hashclass, budget_exec=600, budget_s=120)
     def fails(cand_program):
         if runner.executions >= budget_exec or time.time() - t0 > budget_s:
             raise Out()
-        rep = runner.run(cand_program)
+        try:
+            rep = runner.run(cand_program)
+        except HarnessError:
+            return False          # candidate is not a valid program
         v = rep.get('violation')
         if v and v['invariant'] == inv:
             best['program'], best['violation'] = cand_program, v
